@@ -1585,6 +1585,18 @@ impl Config {
             plugins.validate()?;
         }
 
+        // A client that asks for one of these databases gets the admin console
+        // (Client::startup), a pool of that name could never be reached.
+        for reserved in ["pgcat", "pgbouncer"] {
+            if self.pools.contains_key(reserved) {
+                error!(
+                    "A pool cannot be named `{}`: that name reaches the admin database",
+                    reserved
+                );
+                return Err(Error::BadConfig);
+            }
+        }
+
         // Validation for auth_query feature
         if self.general.auth_query.is_some()
             && (self.general.auth_query_user.is_none()
